@@ -639,6 +639,50 @@ def rangeMapFrom (bounded oc : Bool) (rs : List Um.Proto.Range) : RangeMapRes :=
 def rangesSeen (compressedCompact textual : Bool) (rs : List Um.Proto.Range) : List Um.Proto.Range :=
   if textual || compressedCompact then Um.Proto.compact rs else rs
 
+/-! ### cluster names in node ids (`gen_node_id`, `src/proxy/cluster.rs`) -/
+
+/-- `ClusterName::try_from` as found in the source: ASCII alphanumerics and `@-_` only, or — when the
+source uses `char::is_alphanumeric` — additionally any multi-byte character (an over-approximation
+of the Unicode alphanumerics, good enough to show what can go wrong) -/
+def clusterNameOkV (ascii : Bool) (s : Bytes) : Bool :=
+  if ascii then clusterNameOk s
+  else utf8Valid s && s.all (fun b => clusterNameChar b || decide (b.toNat ≥ 128)) &&
+       decide (s.length ≤ Um.Gen.Hostile.CLUSTER_NAME_MAX_LENGTH)
+
+/-- `chars().count()` of a valid UTF-8 string -/
+def charCount (s : Bytes) : Nat := s.countP fun b => !utf8Cont b
+
+/-- `format!("{:_<24}", cluster_name)`: padded with `_` to 24 *characters* -/
+def nodeIdNameSeg (name : Bytes) : Bytes :=
+  name ++ List.replicate (Um.Gen.Hostile.NODE_ID_NAME_LEN - charCount name) 95
+
+/-- `name_seg.truncate(24)` cuts at 24 *bytes* and panics off a char boundary: `CLUSTER NODES` /
+`CLUSTER SLOTS` of every client would panic while such a name is installed -/
+def nodeIdPanics (name : Bytes) : Bool :=
+  !isCharBoundary (nodeIdNameSeg name) Um.Gen.Hostile.NODE_ID_NAME_LEN
+
+/-! ### counted item loops of the UMCTL parsers
+
+`peer_num` of `UMCTL SETREPL` (two items per peer, a 48-byte `ReplPeer` each) and `ranges_num` of a
+slot range (one item, a 16-byte `Range` each): `for _ in 0..n { it.next().ok_or(..)?; …; v.push(..) }`.
+`n` comes verbatim from the client; the loop leaves at the first missing item. -/
+
+structure CountLoopRes where
+  /-- bytes reserved before the loop (`Vec::with_capacity(n)`, only in a variant that pre-sizes) -/
+  reserve : Nat
+  /-- iterations started -/
+  iters : Nat
+  /-- elements pushed -/
+  pushes : Nat
+  deriving DecidableEq, Repr
+
+def countLoop (prealloc : Bool) (elem per n avail : Nat) : CountLoopRes :=
+  let full := avail / (max per 1)
+  ⟨if prealloc then n * elem else 0, if n ≤ full then n else full + 1, min n full⟩
+
+/-- bytes requested: the reservation plus the growth of the vector (amortised doubling from 4) -/
+def CountLoopRes.allocBytes (elem : Nat) (r : CountLoopRes) : Nat := r.reserve + 4 * elem * (r.pushes + 1)
+
 /-! ## `handle_cmd_ctx` for the modelled families -/
 
 /-- the guard `cmd.get_command_element(k).is_some()` of a `handle_data_cmd` arm -/
